@@ -146,13 +146,14 @@ def _work(task):
             _PROGRESS[sl + 1] = _FAMILY_INDEX.get(family, -1)
             _PROGRESS[sl + 2] = idx
             _PROGRESS[sl] = time.time()
-        signal.alarm(ITEM_TIMEOUT)
+        signal.alarm(getattr(_CHECK, "item_timeout", ITEM_TIMEOUT))
         try:
             r = _CHECK.check_item(family, item, _TIER)
         except Hang:
             r = Res()
             r.evals = 1
-            r.fail("hang", f"hang:{family}", f"item did not finish within {ITEM_TIMEOUT}s")
+            r.fail("hang", f"hang:{family}", "item did not finish within "
+                   f"{getattr(_CHECK, 'item_timeout', ITEM_TIMEOUT)}s")
         except RecursionError:
             r = Res()
             r.evals = 1
@@ -291,9 +292,10 @@ def explore(check, tier, seed):
 
 def _find_hung():
     now = time.time()
+    hard = max(HARD_TIMEOUT, 5 * getattr(_CHECK, "item_timeout", ITEM_TIMEOUT))
     for w in range(NPROC):
         t = _PROGRESS[w * 3]
-        if t and now - t > HARD_TIMEOUT:
+        if t and now - t > hard:
             return int(_PROGRESS[w * 3 + 1]), int(_PROGRESS[w * 3 + 2])
     return None
 
